@@ -2319,7 +2319,7 @@ def fast_nonMarkov_SIR(G, trans_time_fxn=None,
     if initial_recovereds is not None:
         for node in initial_recovereds:
             status[node] = 'R'
-            rec_time[node] = tmin-1 #default value for these.  Ensures that the recovered nodes appear with a time
+            rec_time[node] = tmin #Ensures that the recovered nodes appear with a time: they are 'R' from tmin on.
     pred_inf_time = defaultdict(lambda: float('Inf')) 
         #infection time defaults to \infty  --- this could be set to tmax, 
         #probably with a slight improvement to performance.
